@@ -1314,7 +1314,10 @@ fn declare_classical_helper(
 ) -> asg::Stmt {
     if let Some(initializer) = &initializer {
         if initializer.get_type().is_const() {
-            context.insert_const_value(symbol_id.clone().unwrap(), initializer.clone());
+            // A redeclaration has no symbol (the error is already logged); there is no value to record.
+            if let Ok(id) = &symbol_id {
+                context.insert_const_value(id.clone(), initializer.clone());
+            }
         }
     }
     asg::DeclareClassical::new(symbol_id, initializer).to_stmt()
